@@ -263,18 +263,20 @@ def equivalent_links(block):
     return links
 
 
-def run_dangling(ctx, count):
+def gen_dangling_item(ctx):
     rng = ctx.rng
-    items = []
-    for _ in range(count):
-        block = G.gen_blocks(rng, 1, "itp", dangling=True, max_atoms=4)[0]
-        other = G.gen_blocks(rng, 2, "itp", dangling=False, max_atoms=3)[1]      # a second block named B without dangling
-        nres = rng.randint(1, ctx.budget(7, 12))
-        chain = dict(nodes=[[i, i + 1, block["name"]] for i in range(nres)], edges=[[i, i + 1, None] for i in range(nres - 1)])
-        mixed = G.gen_graph(rng, rng.randint(2, ctx.budget(6, 9)), [block["name"], block["name"], other["name"]])
-        items.append((block, other, chain, mixed))
+    block = G.gen_blocks(rng, 1, "itp", dangling=True, max_atoms=4)[0]
+    other = G.gen_blocks(rng, 2, "itp", dangling=False, max_atoms=3)[1]      # a second block named B without dangling
+    nres = rng.randint(1, ctx.budget(7, 12))
+    chain = dict(nodes=[[i, i + 1, block["name"]] for i in range(nres)], edges=[[i, i + 1, None] for i in range(nres - 1)])
+    mixed = G.gen_graph(rng, rng.randint(2, ctx.budget(6, 9)), [block["name"], block["name"], other["name"]])
+    return dict(stream="dangling", block=block, other=other, chain=chain, mixed=mixed)
+
+
+def run_dangling_items(ctx, items):
     reqs, todo = [], []
-    for block, other, chain, mixed in items:
+    for replay in items:
+        block, other, chain, mixed = replay["block"], replay["other"], replay["chain"], replay["mixed"]
         case = dict(blocks=[block], links=[], graph=chain)
         try:
             names, links, kept = real_split(case, block["name"])
@@ -285,16 +287,16 @@ def run_dangling(ctx, count):
             out_chain_b = run_real(dict(blocks=explicit_blocks, links=equivalent_links(block), graph=chain))[1]
         except Exception as err:  # pylint: disable=broad-except
             ctx.oracle_fail("pipeline-raises", "polyply .itp block with dangling interactions: parser / pipeline raised %s: %s"
-                            % (type(err).__name__, str(err)[:200]), dict(stream="dangling", block=block, other=other, chain=chain, mixed=mixed))
+                            % (type(err).__name__, str(err)[:200]), replay)
             ctx.tally(dangling_real_code_raised=type(err).__name__)
             continue
         reqs.append(dict(op="dangling", names=names, ixns=flat_ixns(block)))
         reqs.append(dict(op="windows", n=len(block["atoms"]), nres=len(chain["nodes"]), ixns=flat_ixns(block)))
-        todo.append((block, other, chain, mixed, links, kept, out_chain, out_chain_b, out_mixed_a, out_mixed_b))
+        todo.append((replay, links, kept, out_chain, out_chain_b, out_mixed_a, out_mixed_b))
     answers = ctx.driver.ask(reqs) if reqs else []
-    for idx, (block, other, chain, mixed, links, kept, out_chain, out_chain_b, out_mixed_a, out_mixed_b) in enumerate(todo):
+    for idx, (replay, links, kept, out_chain, out_chain_b, out_mixed_a, out_mixed_b) in enumerate(todo):
+        block, chain = replay["block"], replay["chain"]
         split, windows = answers[2 * idx], answers[2 * idx + 1]
-        replay = dict(stream="dangling", block=block, other=other, chain=chain, mixed=mixed)
         model_links = [dict(atoms=l["atoms"], ixns=l["ixns"], tagged=l["tagged"]) for l in split["links"]]
         ctx.correspond("dangling-split", dict(links=links, kept=kept), dict(links=model_links, kept=split["kept"]), replay)
         n = len(block["atoms"])
@@ -319,6 +321,10 @@ def run_dangling(ctx, count):
         ctx.case(("dangling", json.dumps(replay, sort_keys=True)) if nd and len(chain["nodes"]) >= 2 else None,
                  stream="dangling", dangling_links=min(len(links), 4), chain=("1" if len(chain["nodes"]) == 1 else "2-3" if len(chain["nodes"]) <= 3 else "4+"))
         ctx.traces += 1
+
+
+def run_dangling(ctx, count):
+    run_dangling_items(ctx, [gen_dangling_item(ctx) for _ in range(count)])
 
 
 # ------------------------------------------------------------------------------------------ entry points
@@ -396,6 +402,6 @@ def replay(ctx, data):
         elif item.get("stream") == "matchOrder":
             run_match_order(ctx)
         elif item.get("stream") == "dangling":
-            print("dangling replay: re-run the check with the same seed (block=%s)" % (item.get("block"),))
+            run_dangling_items(ctx, [item])
     for b in ctx.broken:
         print("REPLAY-DISAGREES", b["name"], b["detail"][:600])
